@@ -12,6 +12,7 @@ already inside any stack of journals).
 -/
 import IrVerif.Lemmas.Journal
 import IrVerif.Lemmas.JournalKernel
+import IrVerif.Lemmas.JournalFlat
 namespace IrVerif.Journal
 
 variable {σ : Type}
@@ -342,6 +343,41 @@ theorem C20_improper_nesting_not_restored :
 
 /-! ### the journal model instantiated with the C01 kernel -/
 
+/-- generic form (any list of public calls given by their call trees and kernel transitions): the plain run -/
+theorem kernel_plain_g (f : Nat) (kb : GBlk) :
+    let r := runBlock kCfg (f + 3) (strip kb.toBlock) (initialWorld { w := Kernel.World.empty })
+    r.1.ir.w = gWorld Kernel.World.empty kb.allOps ∧ r.1.log = gLog Kernel.World.empty kb.allOps ∧
+      r.1.trace = gEvs Kernel.World.empty kb.allOps ∧ r.2 = none := by
+  obtain ⟨reg', last', h⟩ := run_gblk_plain f kb (initialWorld { w := Kernel.World.empty }) rfl
+  simp only [h]
+  simp [advH, initialWorld]
+
+/-- generic form: the journaled run -/
+theorem transparent_kernel_g (f : Nat) (kb : GBlk) (hn : NoReentry kb.toBlock) :
+    let r := runBlock kCfg (f + 3) kb.toBlock (initialWorld { w := Kernel.World.empty })
+    r.1.ir.w = gWorld Kernel.World.empty kb.allOps ∧ r.1.log = gLog Kernel.World.empty kb.allOps ∧
+      r.2 = none ∧ r.1.trace.filter isCall = gEvs Kernel.World.empty kb.allOps ∧
+      (∀ j, (r.1.journals j).entries = expectedFor kOwner j false r.1.trace) ∧
+      r.1.table = pristine ∧ r.1.current = none := by
+  intro r
+  have ht := C20_transparent_from_start kCfg procNone_kCfg detailsOk_kCfg detailsPure_kCfg (f + 3)
+    kb.toBlock { w := Kernel.World.empty } hn
+  have hp := kernel_plain_g f kb
+  simp only [] at ht hp
+  obtain ⟨hir, hlog, hexc, hcalls⟩ := ht
+  obtain ⟨pw, plog, ptr, pexc⟩ := hp
+  refine ⟨by rw [← pw]; exact congrArg KState.w hir, by rw [← plog]; exact hlog, by rw [← pexc]; exact hexc,
+    ?_, ?_, ?_, ?_⟩
+  · rw [hcalls, ptr, isCall_gEvs]
+  · intro j
+    obtain ⟨evs, htr, he⟩ := C20_entries kCfg detailsOk_kCfg (f + 3) j kb.toBlock
+      (initialWorld { w := Kernel.World.empty }) chain_pristine (fun _ => rfl) rfl
+    have hevs : evs = r.1.trace := htr.symm
+    rw [hevs] at he
+    exact he
+  · exact (C20_restore kCfg (f + 3) kb.toBlock _).1
+  · exact (C20_restore kCfg (f + 3) kb.toBlock _).2
+
 /-- without any journal, the instantiated configuration computes the kernel semantics: the world is
     `Kernel.runAny`, the outcomes are the kernel's, and the original functions executed are the
     call trees `callTree` of the successive calls, in order -/
@@ -349,9 +385,9 @@ theorem C20_kernel_plain (f : Nat) (kb : KBlk) :
     let r := runBlock kCfg (f + 3) (strip kb.toBlock) (initialWorld { w := Kernel.World.empty })
     r.1.ir.w = Kernel.runAny kb.allOps ∧ r.1.log = histLog Kernel.World.empty kb.allOps ∧
       r.1.trace = histEvs Kernel.World.empty kb.allOps ∧ r.2 = none := by
-  obtain ⟨reg', h⟩ := run_kblk_plain f kb (initialWorld { w := Kernel.World.empty }) rfl
-  simp only [h]
-  simp [advH, initialWorld, histWorld, Kernel.runAny]
+  have h := kernel_plain_g f kb.toG
+  rw [← KBlk.toBlock_eq, KBlk.allOps_toG, gWorld_gOf] at h
+  exact h
 
 /-- **C20_transparent_kernel**: every history of the C01 kernel alphabet (single and composite
     calls, accepted or rejected), with `with journal:` blocks around any parts of it, nested to any
@@ -364,31 +400,45 @@ theorem C20_kernel_plain (f : Nat) (kb : KBlk) :
     * every journal's entries are exactly `expectedFor` of what executed: one entry per instrumented
       call that completed while the journal was entered, in order of completion (a callee before its
       caller: the wrappers record after the original returned), nothing for a rejected call,
-    * and the class table and the current journal are as at the start. -/
+    * and the class table and the current journal are as at the start.
+    (Since round 4 `histLog` carries the value a direct call returns — `graph.inputs.pop()` — and the
+    extended alphabet has call trees; the statement is unchanged.) -/
 theorem C20_transparent_kernel (f : Nat) (kb : KBlk) (hn : NoReentry kb.toBlock) :
     let r := runBlock kCfg (f + 3) kb.toBlock (initialWorld { w := Kernel.World.empty })
     r.1.ir.w = Kernel.runAny kb.allOps ∧ r.1.log = histLog Kernel.World.empty kb.allOps ∧
       r.2 = none ∧ r.1.trace.filter isCall = histEvs Kernel.World.empty kb.allOps ∧
       (∀ j, (r.1.journals j).entries = expectedFor kOwner j false r.1.trace) ∧
       r.1.table = pristine ∧ r.1.current = none := by
-  intro r
-  have ht := C20_transparent_from_start kCfg procNone_kCfg detailsOk_kCfg detailsPure_kCfg (f + 3)
-    kb.toBlock { w := Kernel.World.empty } hn
-  have hp := C20_kernel_plain f kb
-  simp only [] at ht hp
-  obtain ⟨hir, hlog, hexc, hcalls⟩ := ht
-  obtain ⟨pw, plog, ptr, pexc⟩ := hp
-  refine ⟨by rw [← pw]; exact congrArg KState.w hir, by rw [← plog]; exact hlog, by rw [← pexc]; exact hexc,
-    ?_, ?_, ?_, ?_⟩
-  · rw [hcalls, ptr, isCall_histEvs]
-  · intro j
-    obtain ⟨evs, htr, he⟩ := C20_entries kCfg detailsOk_kCfg (f + 3) j kb.toBlock
-      (initialWorld { w := Kernel.World.empty }) chain_pristine (fun _ => rfl) rfl
-    have hevs : evs = r.1.trace := htr.symm
-    rw [hevs] at he
-    exact he
-  · exact (C20_restore kCfg (f + 3) kb.toBlock _).1
-  · exact (C20_restore kCfg (f + 3) kb.toBlock _).2
+  have h := transparent_kernel_g f kb.toG (by rw [← KBlk.toBlock_eq]; exact hn)
+  rw [← KBlk.toBlock_eq, KBlk.allOps_toG, gWorld_gOf] at h
+  exact h
+
+/-- **C20_transparent_kernel_spelled** (round 4; supersedes `C20_transparent_kernel`, which is its instance for
+    the plain spelling): the same for histories of SPELLED calls — a kernel op together with how it is written on
+    the real objects (through an `ir.Function` created on first use, through `Node.append` / `Node.prepend`, with
+    `Attr` objects built for it, with `|=`): the kernel world is that of the underlying kernel ops; the outcomes
+    are the kernel's with the value a direct call returns (`histLogX`); the originals executed are the spelled call
+    trees `callTreeX` (with `Function.__init__` / `Attr.__init__` / `Node.append` in them); every journal has
+    exactly one entry per instrumented call that completed while it was entered; classes restored. -/
+theorem C20_transparent_kernel_spelled (f : Nat) (kb : KBlkX) (hn : NoReentry kb.toBlock) :
+    let r := runBlock kCfg (f + 3) kb.toBlock (initialWorld { w := Kernel.World.empty })
+    r.1.ir.w = Kernel.runAny kb.allOps ∧ r.1.log = histLogX Kernel.World.empty kb.allCalls ∧
+      r.2 = none ∧ r.1.trace.filter isCall = histEvsX Kernel.World.empty kb.allCalls ∧
+      (∀ j, (r.1.journals j).entries = expectedFor kOwner j false r.1.trace) ∧
+      r.1.table = pristine ∧ r.1.current = none := by
+  have h := transparent_kernel_g f kb.toG hn
+  rw [KBlkX.allOps_toG, gWorld_gOfX] at h
+  exact h
+
+/-- the plain run of a spelled history computes the kernel semantics of the underlying ops and executes the
+    spelled call trees -/
+theorem C20_kernel_plain_spelled (f : Nat) (kb : KBlkX) :
+    let r := runBlock kCfg (f + 3) (strip kb.toBlock) (initialWorld { w := Kernel.World.empty })
+    r.1.ir.w = Kernel.runAny kb.allOps ∧ r.1.log = histLogX Kernel.World.empty kb.allCalls ∧
+      r.1.trace = histEvsX Kernel.World.empty kb.allCalls ∧ r.2 = none := by
+  have h := kernel_plain_g f kb.toG
+  rw [KBlkX.allOps_toG, gWorld_gOfX] at h
+  exact h
 
 /-- non-vacuity: a history (a value, a node, a graph that takes the node and names it and its
     output, a rejected call) from its second call on inside two nested journals: the inner journal
@@ -400,8 +450,321 @@ example :
     NoReentry kb.toBlock ∧
     ((runBlock kCfg 3 kb.toBlock (initialWorld { w := Kernel.World.empty })).1.journals 1).entries.map
       (fun e => (e.slot, e.objectId)) =
-      [(12, 8), (1, 1), (34, 2), (34, 2), (2, 1), (13, 8), (11, 1), (22, 2), (19, 2), (11, 1), (21, 2)] := by
+      [(12, 16), (1, 1), (34, 2), (34, 2), (2, 1), (13, 16), (11, 1), (22, 2), (19, 2), (11, 1), (21, 2)] := by
   intro kb
   refine ⟨by simp [kb, KBlk.toBlock, histBlock, NoReentry, journalsOf], by decide⟩
+
+/-- return values: `graph.inputs.pop()` hands back the popped value inside two journals as outside (the log of a
+    direct call carries what came back through the wrappers), and the journals record `pop_io` on the graph -/
+example :
+    let kb : KBlk := .seq (.ops [.one (.newValue (some "x")), .one (.newGraph [0] [] [] [])])
+      (.withJ 0 (.withJ 1 (.ops [.one (.io 0 .inp (.pop (-1)))])))
+    (runBlock kCfg 3 kb.toBlock (initialWorld { w := Kernel.World.empty })).1.log.getLast? = some (.ret (.ref 0)) ∧
+    ((runBlock kCfg 3 kb.toBlock (initialWorld { w := Kernel.World.empty })).1.journals 1).entries.map
+      (fun e => (e.operation, e.objectId)) = [("pop_io", 2)] := by
+  decide
+
+/-- spelled calls: `anchor.append([n])` on a node of the graph, through a function created for it, and an
+    attribute written with a new `Attr`: the inner journal sees `Function.__init__`, `Node.append` around
+    `Graph.insert_after`, `Attr.__init__`, `set_attribute` on the node -/
+example :
+    let kb : KBlkX := .seq (.ops [⟨.one (.newNode "A" none [] (some 0) none none), {}⟩,
+        ⟨.one (.newNode "B" none [] (some 0) none none), {}⟩, ⟨.one (.newGraph [] [] [0] []), {}⟩])
+      (.withJ 0 (.ops [⟨.one (.insertAfter 0 0 [1]), { newFunction := some 0, viaNode := true }⟩,
+        ⟨.one (.attrSet 1 "k" []), { newAttrs := [0] }⟩]))
+    NoReentry kb.toBlock ∧
+    ((runBlock kCfg 3 kb.toBlock (initialWorld { w := Kernel.World.empty })).1.journals 0).entries.map
+      (fun e => (e.slot, e.objectId)) = [(28, 9), (2, 17), (11, 17), (24, 2), (9, 1), (32, 8), (42, 17)] := by
+  intro kb
+  refine ⟨by simp [kb, KBlkX.toBlock, KBlkX.toG, GBlk.toBlock, gBlock, NoReentry, journalsOf], by decide⟩
+
+/-! ## round 4 -/
+
+/-! ### flat histories: any properly nested word of enter / exit / operations restores -/
+
+/-- **C20_restore_flat**: for every flat history — raw `__enter__` / `__exit__` calls (exits taken
+    normally or with an exception propagating) and user code that calls instrumented operations, in
+    any order that is properly nested (`WellBracketed`: every exit leaves the innermost open journal,
+    no journal object is entered while open, nothing is left open) — started from ANY class table and
+    current journal, the journals of the word not being active: after the word the class table, the
+    current journal and every journal's active flag are exactly what they were before it.  This is
+    the form in which `contextlib.ExitStack`, generators and hand-written `__enter__`/`__exit__`
+    calls use a journal; the block form `C20_restore` is the special case of `with` statements. -/
+theorem C20_restore_flat (cfg : Cfg σ) (fuel : Nat) (u : List (FEv σ)) (w : World σ)
+    (hwb : WellBracketed u) (hfresh : ∀ j ∈ flatEnters u, (w.journals j).active = false) :
+    (runFlat cfg fuel u w).table = w.table ∧ (runFlat cfg fuel u w).current = w.current ∧
+      ∀ i, ((runFlat cfg fuel u w).journals i).active = (w.journals i).active :=
+  flat_inv cfg fuel u [] w w.table w.current (fun i => (w.journals i).active) hwb List.nodup_nil
+    ⟨rfl, rfl⟩ (fun _ _ => rfl) (fun _ h => by cases h) hfresh
+
+/-- non-vacuity: three journals, journal 0 used twice in sequence, an operation that raises, an
+    exit taken with an exception propagating -/
+example : WellBracketed (σ := Unit)
+    [.enter 0, .op (.done (.raise 7)), .enter 1, .enter 2, .exit 2 true, .exit 1 true, .exit 0 false,
+     .enter 0, .op (.call 1 0 .none fun _ => .done (.ret .none)), .exit 0 false] := by decide
+
+/-- `hfresh` is needed: a word that enters a journal which is already active does not enter it (the
+    `__enter__` is refused) and its exit then closes the OUTER use of that journal -/
+theorem C20_restore_flat_needs_fresh :
+    let w0 := enterRaw 0 (initialWorld ())
+    let cfg : Cfg Unit := { impl := fun _ _ _ => .done (.ret .none), owner := id, details := fun _ _ _ s => some s }
+    WellBracketed (σ := Unit) [.enter 0, .exit 0 false] ∧
+      (runFlat cfg 1 [.enter 0, .exit 0 false] w0).table 0 ≠ w0.table 0 := by
+  refine ⟨by decide, ?_⟩
+  simp [runFlat, enter, enterRaw, exit, initialWorld, pristine, upd]
+
+/-- **what `__exit__` does in ANY history** (properly nested or not): journal `j`, entered at world
+    `w`, and exited after an arbitrary word `u` that does not exit it — whatever else is entered,
+    exited (in any order) or executed in between — puts back exactly the class table and current
+    journal of the moment it was entered, and is inactive.  (`__exit__` does not look at what is
+    installed now.) -/
+theorem C20_exit_restores_own_snapshot (cfg : Cfg σ) (fuel j : Nat) (u : List (FEv σ)) (x : Bool)
+    (w : World σ) (hj : (w.journals j).active = false) (hu : j ∉ flatExits u) :
+    let w' := runFlat cfg fuel (.enter j :: u ++ [.exit j x]) w
+    w'.table = w.table ∧ w'.current = w.current ∧ (w'.journals j).active = false := by
+  have hen : enter j w = some (enterRaw j w) := by simp [enter, hj]
+  have hact : ((enterRaw j w).journals j).active = true := by simp [enterRaw, upd]
+  have hf := flat_frame_active cfg fuel j u (enterRaw j w) hact hu
+  have hcap : ((runFlat cfg fuel u (enterRaw j w)).journals j).captured = some w.table := by
+    rw [hf.1]; simp [enterRaw, upd]
+  have hprev : ((runFlat cfg fuel u (enterRaw j w)).journals j).previous = w.current := by
+    rw [hf.2.1]; simp [enterRaw, upd]
+  simp only [runFlat, hen, Option.getD_some, runFlat_append]
+  simp [exit, hcap, hprev, upd]
+
+/-- **C20_improper_nesting_general** (generalises `C20_improper_nesting_not_restored`): journal `i`
+    is entered, any properly nested history `u` runs, journal `j` is entered, any history `v` that does
+    not exit `j` runs, and then `i` is exited BEFORE `j` (e.g. `i` is held by a generator that is
+    closed, or an `ExitStack` is misused).  After both exits every slot of the class table carries the
+    wrapper of the exited journal `i` around what was installed at the start, `get_current_journal()`
+    is the exited journal `i`, and both journals are inactive: the classes stay wrapped for ever.
+    Outside "properly nested"; `__exit__` does not check that it leaves the innermost journal. -/
+theorem C20_improper_nesting_general (cfg : Cfg σ) (fuel i j : Nat) (hij : i ≠ j)
+    (u v : List (FEv σ)) (x y : Bool) (w : World σ)
+    (hu : WellBracketed u) (hui : i ∉ flatEnters u) (huj : j ∉ flatEnters u)
+    (hfresh : ∀ a ∈ flatEnters u, (w.journals a).active = false)
+    (hi : (w.journals i).active = false) (hj : (w.journals j).active = false)
+    (hvj : j ∉ flatExits v) (hvi : i ∉ flatExits v) :
+    let w' := runFlat cfg fuel (.enter i :: u ++ .enter j :: v ++ [.exit i x, .exit j y]) w
+    (∀ k, w'.table k = .wrap i k (w.table k)) ∧ w'.current = some i ∧
+      (w'.journals i).active = false ∧ (w'.journals j).active = false := by
+  have hen : enter i w = some (enterRaw i w) := by simp [enter, hi]
+  -- after `enter i` and the properly nested `u`
+  have hfresh1 : ∀ a ∈ flatEnters u, ((enterRaw i w).journals a).active = false := by
+    intro a ha
+    have hai : a ≠ i := fun e => hui (e ▸ ha)
+    rw [enterRaw_other i a w hai]; exact hfresh a ha
+  obtain ⟨ht1, hc1, ha1⟩ := C20_restore_flat cfg fuel u (enterRaw i w) hu hfresh1
+  let w1 := runFlat cfg fuel u (enterRaw i w)
+  have hj1 : (w1.journals j).active = false := by
+    show ((runFlat cfg fuel u (enterRaw i w)).journals j).active = false
+    rw [ha1 j, enterRaw_other i j w (fun e => hij e.symm)]; exact hj
+  have hi1 : (w1.journals i).active = true := by
+    show ((runFlat cfg fuel u (enterRaw i w)).journals i).active = true
+    rw [ha1 i]; simp [enterRaw, upd]
+  -- `enter j :: (v ++ [exit i]) ++ [exit j]` restores the snapshot of `w1`
+  have hx : j ∉ flatExits (v ++ [FEv.exit (σ := σ) i x]) := by
+    have : ∀ (a b : List (FEv σ)), flatExits (a ++ b) = flatExits a ++ flatExits b := by
+      intro a b
+      induction a with
+      | nil => rfl
+      | cons e r ih => cases e <;> simp [flatExits, ih]
+    rw [this]
+    simp only [flatExits, List.mem_append, List.mem_singleton, not_or]
+    exact ⟨hvj, fun e => hij e.symm⟩
+  have hsnap := C20_exit_restores_own_snapshot cfg fuel j (v ++ [.exit i x]) y w1 hj1 hx
+  -- journal `i` after the tail: exited inside it, not entered again ... (its flag after `exit i`)
+  have hw : runFlat cfg fuel (.enter i :: u ++ .enter j :: v ++ [.exit i x, .exit j y]) w =
+      runFlat cfg fuel (.enter j :: (v ++ [.exit i x]) ++ [.exit j y]) w1 := by
+    have e1 : (FEv.enter i :: u ++ FEv.enter j :: v ++ [FEv.exit i x, FEv.exit j y] : List (FEv σ)) =
+        FEv.enter i :: (u ++ (FEv.enter j :: (v ++ [FEv.exit i x]) ++ [FEv.exit j y])) := by simp
+    rw [e1]
+    simp only [runFlat, hen, Option.getD_some]
+    rw [runFlat_append]
+  simp only [] at hsnap ⊢
+  rw [hw]
+  refine ⟨fun k => ?_, ?_, ?_, hsnap.2.2⟩
+  · rw [hsnap.1]
+    show (runFlat cfg fuel u (enterRaw i w)).table k = _
+    rw [ht1]; rfl
+  · rw [hsnap.2.1]
+    show (runFlat cfg fuel u (enterRaw i w)).current = _
+    rw [hc1]; rfl
+  · -- `i` is active in `w1`, stays so through `enter j :: v` (not exited), is exited, and `exit j` does not touch it
+    have hen_j : enter j w1 = some (enterRaw j w1) := by simp [enter, hj1]
+    have hi2 : ((enterRaw j w1).journals i).active = true := by
+      rw [enterRaw_other j i w1 hij]; exact hi1
+    have hf := flat_frame_active cfg fuel i v (enterRaw j w1) hi2 hvi
+    have hcap : ∃ t, ((runFlat cfg fuel v (enterRaw j w1)).journals i).captured = some t := by
+      rw [hf.1, enterRaw_other j i w1 hij]
+      have hfi := flat_frame_active cfg fuel i u (enterRaw i w) (by simp [enterRaw, upd])
+        (by
+          -- a properly nested word that never enters `i` never exits it
+          intro hmem
+          have key : ∀ (r : List (FEv σ)) (st : List Nat), wbAux st r = true → i ∈ flatExits r →
+              i ∈ st ∨ i ∈ flatEnters r := by
+            intro r
+            induction r with
+            | nil => intro st _ h; simp [flatExits] at h
+            | cons e r ih =>
+              intro st hwb h
+              cases e with
+              | enter a =>
+                simp only [wbAux, Bool.and_eq_true] at hwb
+                rcases ih (a :: st) hwb.2 (by simpa [flatExits] using h) with h1 | h1
+                · rcases List.mem_cons.mp h1 with h2 | h2
+                  · right; simp [flatEnters, h2]
+                  · left; exact h2
+                · right; simp [flatEnters, h1]
+              | exit a z =>
+                cases st with
+                | nil => simp [wbAux] at hwb
+                | cons t st' =>
+                  simp only [wbAux, Bool.and_eq_true, beq_iff_eq] at hwb
+                  simp only [flatExits, List.mem_cons] at h
+                  rcases h with h | h
+                  · left; rw [h, ← hwb.1]; exact List.mem_cons_self ..
+                  · rcases ih st' hwb.2 h with h1 | h1
+                    · left; exact List.mem_cons_of_mem _ h1
+                    · right; simpa [flatEnters] using h1
+              | op p =>
+                simp only [wbAux] at hwb
+                rcases ih st hwb (by simpa [flatExits] using h) with h1 | h1
+                · left; exact h1
+                · right; simpa [flatEnters] using h1
+          rcases key u [] hu hmem with h | h
+          · cases h
+          · exact hui h)
+      exact ⟨w.table, by
+        show ((runFlat cfg fuel u (enterRaw i w)).journals i).captured = _
+        rw [hfi.1]; simp [enterRaw, upd]⟩
+    obtain ⟨t, hcap⟩ := hcap
+    simp only [List.cons_append, List.append_assoc, runFlat, hen_j, Option.getD_some, runFlat_append,
+      List.nil_append]
+    rw [exit_other j i _ hij]
+    simp [exit, hcap, upd]
+
+/-- the round-3 instance: `i = 0`, `j = 1`, nothing in between -/
+example : (runFlat (σ := Unit) { impl := fun _ _ _ => .done (.ret .none), owner := id, details := fun _ _ _ s => some s }
+    1 [.enter 0, .enter 1, .exit 0 false, .exit 1 false] (initialWorld ())).table 0 = .wrap 0 0 (.orig 0) := by
+  simp [runFlat, enter, enterRaw, exit, initialWorld, pristine, upd]
+
+/-! ### callables captured across a journal boundary -/
+
+/-- **C20_captured_before_not_recorded**: a callable taken (from an instance or from the class) at a
+    moment when no wrapper of journal `j` was installed in its slot, and called while `j` is entered:
+    the original runs and its nested instrumented calls go through the class table (they ARE recorded,
+    like every call inside the journal), but the call itself leaves no entry in `j` — whereas
+    `expectedFor` of what executed has one more entry when the call returned.  The class table is
+    untouched.  (The monkey-patching design cannot see such a call; outside the model of the run
+    theorems, which look every operation up on the class.) -/
+theorem C20_captured_before_not_recorded (cfg : Cfg σ) (hdet : DetailsOk cfg) (f j k : Nat) (self : Obj)
+    (arg : Val) (w0 w : World σ) (hc0 : ChainFor k (w0.table k)) (h0 : (w0.table k).cnt j = 0)
+    (hch : Chain w.table) (hcnt : ∀ k, (w.table k).cnt j = 1) :
+    let r := callCaptured cfg (f + 1) (capture k self w0) arg w
+    r.1.table = w.table ∧
+    ∃ evs o, r.1.trace = w.trace ++ [.start k self] ++ evs ++ [.finish k self o] ∧ isRet r.2 = isRet o ∧
+      (r.1.journals j).entries = (w.journals j).entries ++ expectedFor cfg.owner j true evs ∧
+      expectedFor cfg.owner j true (.start k self :: (evs ++ [.finish k self o])) =
+        expectedFor cfg.owner j true evs ++
+          (if isRet o = true then [mkEntry k (targetOf cfg.owner k self)] else []) := by
+  obtain ⟨ht, evs, o, htr, hcalls, hret, he⟩ :=
+    callCaptured_spec cfg hdet j true f k (capture k self w0) hc0 arg w hch (by simpa [b2n] using hcnt)
+  refine ⟨ht, evs, o, htr, hret, ?_, ?_⟩
+  · have : post cfg.owner k (capture k self w0).self ((capture k self w0).impl.cnt j) o = [] := by
+      simp [capture, h0, post]
+    simpa [ent, this] using he
+  · rw [expected_call cfg.owner j true k self o evs hcalls]
+    cases o <;> simp [post, b2n, isRet]
+
+/-- **C20_captured_inside_records_after_exit**: a callable taken while journal `j` was entered (one
+    wrapper of `j` in its slot) and called when `j` is not entered any more (no wrapper of `j` in the
+    class table): the stale wrapper still runs — when the call returns, the EXITED journal gains one
+    entry (and nothing for the nested calls, which go through the restored table).  The class table
+    is untouched: the classes do behave as before; it is the object the user kept that still records.
+    Defect D471 of /repo (the journal receives entries for operations executed after it was left);
+    proposed fix: the wrappers forward without recording when `journal._active` is false
+    (`C20_captured_inside_guarded`). -/
+theorem C20_captured_inside_records_after_exit (cfg : Cfg σ) (hdet : DetailsOk cfg) (f j k : Nat)
+    (self : Obj) (arg : Val) (w0 w : World σ) (hc0 : ChainFor k (w0.table k))
+    (h1 : (w0.table k).cnt j = 1) (hch : Chain w.table) (hcnt : ∀ k, (w.table k).cnt j = 0) :
+    let r := callCaptured cfg (f + 1) (capture k self w0) arg w
+    r.1.table = w.table ∧
+      (r.1.journals j).entries = (w.journals j).entries ++
+        (if isRet r.2 = true then [mkEntry k (targetOf cfg.owner k self)] else []) := by
+  obtain ⟨ht, evs, o, _, hcalls, hret, he⟩ :=
+    callCaptured_spec cfg hdet j false f k (capture k self w0) hc0 arg w hch (by simpa [b2n] using hcnt)
+  refine ⟨ht, ?_⟩
+  rw [expectedFor_inactive_calls cfg.owner j evs hcalls] at he
+  simp only [ent, List.append_nil] at he
+  rw [he, hret]
+  simp [capture, h1, post]
+
+/-- the concrete scenario: `with j0: m = g.append` then `m(n)` after the block — journal 0 is
+    inactive, the class table is pristine, and journal 0 has an entry for the call -/
+theorem C20_captured_inside_witness :
+    let cfg : Cfg Unit := { impl := fun _ _ _ => .done (.ret .none), owner := id, details := fun _ _ _ s => some s }
+    let w1 := enterRaw 0 (initialWorld ())
+    let c := capture 21 5 w1
+    let w2 := exit 0 w1
+    let r := callCaptured cfg 2 c .none w2
+    (w2.journals 0).active = false ∧ w2.table = pristine ∧ r.1.table = pristine ∧
+      (r.1.journals 0).entries = [mkEntry 21 5] := by
+  refine ⟨by simp [exit, enterRaw, initialWorld, upd], by simp [exit, enterRaw, initialWorld, upd], ?_, ?_⟩
+  · simp [callCaptured, capture, runImpl, runOrig, runProg, enterRaw, exit, initialWorld, upd, emit, record, kindOf, slots,
+      pristine]
+  · simp [callCaptured, capture, runImpl, runOrig, runProg, enterRaw, exit, initialWorld, upd, emit, record, kindOf,
+      slots, targetOf, pristine]
+
+/-- with the proposed fix (a wrapper of an inactive journal only forwards) the same call leaves the
+    exited journal as it is and has the outcome of the un-wrapped call -/
+theorem C20_captured_inside_guarded :
+    let cfg : Cfg Unit := { impl := fun _ _ _ => .done (.ret .none), owner := id, details := fun _ _ _ s => some s }
+    let w1 := enterRaw 0 (initialWorld ())
+    let c := capture 21 5 w1
+    let w2 := exit 0 w1
+    let r := callCapturedGuarded cfg 2 c .none w2
+    (r.1.journals 0).entries = [] ∧ r.2 = .ret .none ∧ r.1.table = pristine := by
+  simp [callCapturedGuarded, capture, runImplGuarded, runOrig, runProg, enterRaw, exit, initialWorld, upd, emit,
+    pristine, kindOf, slots]
+
+/-- non-vacuity of the hypotheses of the two captured-callable theorems: the table inside one journal
+    has exactly one wrapper of that journal per slot, the pristine one none -/
+example : (∀ k, ((enterRaw 0 (initialWorld ())).table k).cnt 0 = 1) ∧ (∀ k, (pristine k).cnt 0 = 0) ∧
+    ChainFor 21 ((enterRaw 0 (initialWorld ())).table 21) ∧ Chain (enterRaw 0 (initialWorld ())).table :=
+  ⟨fun _ => rfl, fun _ => rfl, ⟨rfl, rfl⟩, fun _ => ⟨rfl, rfl⟩⟩
+
+/-- the instrumented operations do not touch the control state: the frame of `runOrig` over `dispatch` -/
+theorem runOrig_frame (cfg : Cfg σ) (f k : Nat) (s : Obj) (a : Val) (w : World σ) :
+    SameCtl w (runOrig cfg (dispatch cfg f) k s a w).1 :=
+  runOrig_stable (sameCtl_stable w) cfg
+    (fun s' o a' w' h => dispatch_stable (sameCtl_stable w) cfg f s' o a' w' h) k s a w (SameCtl.refl w)
+
+/-- **C20_guard_noop_when_active** (the code since repo commit 1a1144b, fix of D471): a wrapper that first looks at
+    `journal._active` behaves exactly like the wrapper without that check whenever the journals of all its layers are
+    active — which is the case for every wrapper reachable through the class table of a properly nested history.  So
+    the run theorems above, stated for `runImpl`, describe the guarded wrappers too. -/
+theorem C20_guard_noop_when_active (cfg : Cfg σ) (f : Nat) (c : Captured) (arg : Val) (w : World σ)
+    (hact : ∀ j ∈ c.impl.layers, (w.journals j).active = true) :
+    callCapturedGuarded cfg (f + 1) c arg w = callCaptured cfg (f + 1) c arg w :=
+  runImplGuarded_eq_of_active cfg (fun k s a w' => runOrig_frame cfg f k s a w') c.impl c.self arg w hact
+
+/-- **C20_captured_after_exit_guarded** (the code since repo commit 1a1144b): a callable taken inside journals that
+    have all been exited is a pure pass-through — the world after the call is exactly the world after calling the
+    original function directly (no `details` evaluated, NO ENTRY in any journal: the trace, the IR and every journal
+    are those of the direct call), and it completes iff the original does. -/
+theorem C20_captured_after_exit_guarded (cfg : Cfg σ) (f : Nat) (c : Captured) (arg : Val) (w : World σ)
+    (hinact : ∀ j ∈ c.impl.layers, (w.journals j).active = false) :
+    (callCapturedGuarded cfg (f + 1) c arg w).1 = (runOrig cfg (dispatch cfg f) c.impl.base c.self arg w).1 ∧
+      isRet (callCapturedGuarded cfg (f + 1) c arg w).2 =
+        isRet (runOrig cfg (dispatch cfg f) c.impl.base c.self arg w).2 :=
+  runImplGuarded_inactive cfg (fun k s a w' => runOrig_frame cfg f k s a w') c.impl c.self arg w hinact
+
+/-- non-vacuity: after `with j0:` the layer of a callable taken inside is inactive; inside it is active -/
+example : (∀ j ∈ (capture 21 5 (enterRaw 0 (initialWorld ()))).impl.layers,
+      ((exit 0 (enterRaw 0 (initialWorld ()))).journals j).active = false) ∧
+    (∀ j ∈ (capture 21 5 (enterRaw 0 (initialWorld ()))).impl.layers,
+      ((enterRaw 0 (initialWorld ())).journals j).active = true) := by
+  simp [capture, enterRaw, exit, initialWorld, pristine, upd, Impl.layers]
 
 end IrVerif.Journal
